@@ -14,6 +14,8 @@ Tie
   * correspondence `appdoc`:   XML exception documents produced by the WHOLE application on a malformed-request
                                stream; the message is recovered with lxml and the body must be exactly
                                exception_doc template message code locator.
+The model describes the REPAIRED code (fix commits C18-a message sanitising, C18-b escaped host in Request.base_url,
+C18-c content type of in-image exceptions); on a tree without them the translator fails closed.
 Oracle (on the implementation, independent of the model): see `oracle_*` below.  The application-level part
 (WSGI never raises, images decode, no trace back in a body) is validated, not proved.
 """
@@ -519,7 +521,9 @@ def build_app(ctx):
             w, h = int(q.get('width', 256)), int(q.get('height', 256))
         except ValueError:
             w, h = 256, 256
-        w, h = max(1, min(w, 2048)), max(1, min(h, 2048))
+        if not (1 <= w <= 4096 and 1 <= h <= 4096):
+            # an honest upstream refuses sizes it cannot render (it never answers with another size)
+            raise H.HTTPClientError('HTTP Error "%s": 400 size not supported' % url, response_code=400)
         if req == 'getlegendgraphic':
             w, h = 20, 12
         im = Image.new('RGB', (w, h), (10, 200, 30))
